@@ -53,13 +53,14 @@ def handle (j : J) : Except String J := do
       | [d, p, b] => pure (((← d.asNat), (← p.asNat)), (← b.asBool))
       | _ => .error "prev = [dpid,port,bool]"
     let fail ← j.optNat "fail"
-    match updateTreeF adj order conns prev fail with
+    let all ← j.boolean "all"
+    match updateTreeF all adj order conns prev fail with
     | .error e => pure (J.mk [("exc", J.str e)])
     | .ok (pv, mods) => pure (J.mk [("mods", J.arr (mods.map modToJ)),
                                     ("prev", J.arr (pv.map fun ((d, p), b) => J.arr [J.ofNat d, J.ofNat p, J.bool b]))])
   else if op = "history" then
-    let vs ← j.string "variant"
-    let v ← if vs = "fixed" then pure fixed else if vs = "pinned" then pure pinned else .error "variant = fixed|pinned"
+    let vj ← j.get "variant"
+    let v : Variant := ⟨← vj.boolean "popFirst", ← vj.boolean "skip", ← vj.boolean "visitAll"⟩
     let ops ← (← j.array "ops").mapM opOfJ
     let (s, outs) := runOps v Discovery.init ops
     pure (J.mk [("outs", J.arr (outs.map outToJ)),
